@@ -23,10 +23,46 @@ PROPS["C19"] = dict(
                "rule / request lists) is unbounded, the oracles are cheap and exact, and the defects of this area "
                "(length and alphabet boundaries, C-string handling, selector combinations, rule order, identity "
                "components) are boundary/combination defects that breadth of generated cases finds.",
-    technique="differential reference validator + direct pattern matcher + expected-stream-set model + first-match rule "
-              "model + identity model; rapidcheck choice streams, libFuzzer on the byte-level validator target",
+    technique="differential reference validator + direct pattern matcher and regular-expression tree matcher + "
+              "expected-stream-set model (incl. histogram boundaries and bucket counts) + first-match rule model over "
+              "every provider construction path + identity model; rapidcheck choice streams, libFuzzer on the "
+              "byte-level validator target",
     rule="Cases are choice streams decoded into (name, unit, storage layout) triples, Create* call lists, "
-         "(meters, instruments, views) configurations, (rule list, scope list) configurations and Get* request lists.",
+         "(meters, instruments, views) configurations, (rule list, scope list with logger scope attributes, provider "
+         "construction path) configurations and Get* request lists (with construction path, GetLogger overload and "
+         "\"\" / null-view presentation of empty components).",
+    generators="names/units: boundary-length, offending-byte, embedded-NUL and random-byte classes in five storage layouts; "
+               "create_e2e: 1..3 Create* calls (all 12), 1..2 collections. predicate/views name selectors: pool names, '*', "
+               "the small grammar (literal, '.', '.*') and generated regular-expression TREES printed as text (atoms: "
+               "literal words, '\\.', '.', classes [a-c] [^x] [._/-] [0-9] [qQ] [^.] [a-z.], groups (req|resp) (a|ab) ...; "
+               "quantifiers + ? * {2} {1,2} {0,}; optional ^ / $) - well-formed by construction, ill-formed patterns are "
+               "outside the domain. views: 1..3 meters, 1..4 instruments of the 6 ABI-v1 types (int/double, unit siblings), "
+               "0..4 views (type/name/unit/meter selectors near an instrument or off by one component; rename, "
+               "description, 5 aggregations, 6 attribute allow-lists, custom histogram boundaries drawn in 55% of the "
+               "views whose stream is a histogram); every value is an integer < 2^53, so sums are exact in doubles. "
+               "scope_rules: 0..5 rules of 10 kinds (name-equals, scripted predicates over name, version, schema, "
+               "prefix, constant, name length, 'has attribute k', 'attribute k == int64 1'), 3 defaults, 1..4 scopes "
+               "with emission counts and (loggers) one of 14 typed attribute sets; the tracer / meter / logger provider "
+               "is built through one of 8 / 6 / 8 public constructor and factory overloads (context-taking and "
+               "vector-taking ones included; the overloads without a configurator are modelled as 'no rules, enabled'). "
+               "identity: 2..7 requests (fresh / exact repeat / one-component variation incl. blanking), empty "
+               "components handed over as \"\" or as a null string_view, loggers through 5 GetLogger overloads with 15 "
+               "attribute sets (int64, int32, bool, double, string_view, const char*, int64 and string arrays, set "
+               "order, a key named twice).",
+    oracle="validators: reference written from the statement (two-sided, NUL in a unit either). create_e2e: the set of "
+           "streams at the reader == the set of valid instruments; the callback added to an observable instrument runs "
+           "at every collection when the instrument is valid and NEVER when it is invalid (inert). predicate: direct "
+           "matcher for the small grammar; for tree patterns the verdict is decided where the regular-expression reading "
+           "(tree matcher) and the exact reading agree, either elsewhere; Match is a function of the text (asked twice "
+           "from different storage). views: FindViews == reference relation in registration order / one neutral "
+           "default view; every stream is attributed to its instrument by value markers and must fit one applied view "
+           "(perfect matching): scope, name, description, unit, type, value type, attribute sets after the allow-list, "
+           "point kind, monotonicity, sum / count / last value, and for histograms the boundary list (the view's own "
+           "list, else the default 15 boundaries - also for the default view and for views without boundaries) and "
+           "the bucket counts. scope_rules: first-match model per signal and construction path; exporter / reader "
+           "contents per scope == model. identity: same identity => same pointer, scope reported == scope requested "
+           "(null view == \"\"), attribute count == distinct keys; different identity => different pointer (assumption "
+           "below); pairs whose attributes are in an either-relation are not judged.",
     assumptions=[
         "a NUL byte inside a unit is an either-region ('ASCII character' can be read both ways); a NUL inside a name "
         "is invalid",
@@ -40,6 +76,23 @@ PROPS["C19"] = dict(
         "attribute-key storage are the subject of C06/C08 (findings F8 first shape, F11)",
         "two view selectors matching one instrument are generated only while finding F8 is not excluded; "
         "attribute allow-lists on observable instruments only while C19-ASYNC-VIEW-FILTER is not excluded",
+        "name selectors with regular-expression metacharacters other than '.' and '*': only well-formed patterns are "
+        "in the domain (an ill-formed one makes InstrumentSelector's constructor throw std::regex_error; nothing "
+        "documents selector behaviour there); where the pattern describes the name the verdict is an either-region "
+        "(the statement names no pattern language), a name it does not describe must not be selected",
+        "identity is also checked in the converse direction (different name / version / schema / attributes / logger "
+        "name => different object): the statement only demands 'same request => same object'; the converse is what "
+        "keeps the scope reported by the object equal to the scope requested, and the logger name is read as part of "
+        "'name' for a logger",
+        "scope attributes that differ only in integer width ({k: int32 1} vs {k: int64 1}), and a list naming a key "
+        "twice against the list with the last value only, are either-regions of 'the same attributes'",
+        "the scope configurator may be consulted about scopes nobody requested (only counted as a tag); what a disabled "
+        "meter does with observable callbacks is not judged ('produces no telemetry' is checked at the reader)",
+        "findings C19-async-hist-bounds (a Histogram view with its own boundaries on an observable instrument) and "
+        "C19-logger-dup-attr-key (a logger attribute list that names a key twice) are fixed in /repo (8a98069, 23198eb); "
+        "both shapes are generated by views / identity and each has a fixed witness target kept as a regression replay",
+        "validator_locale runs both validator variants under the global locale C.utf8, the only non-\"C\" locale "
+        "installed on this image (no single-byte ISO-8859 locale is available to make isalpha accept 0xC0..0xFF)",
         "ABI v1: no synchronous gauge, no tracer/meter scope attributes (logger scope attributes are covered)",
         "the non-regex validator variants are compiled from the unmodified source with the macro forced to 0; a "
         "platform-specific std::regex defect is out of scope",
@@ -51,6 +104,8 @@ PROPS["C19"] = dict(
         run("validator", "c19n_rc", "validator", "rc", dict(procs=2, cases=130000), dict(procs=4, cases=800000)),
         run("validator-noregex", "c19n_rc", "validator_noregex", "rc", dict(procs=1, cases=130000),
             dict(procs=2, cases=800000)),
+        run("validator-locale", "c19n_rc", "validator_locale", "rc", dict(procs=1, cases=20000),
+            dict(procs=1, cases=200000)),
         run("bytes", "c19n_rc", "validator_bytes", "rc", dict(procs=1, cases=20000), dict(procs=1, cases=200000)),
         run("bytes-fuzz", "c19n_fuzz", "validator_bytes", "fuzz", dict(procs=2, cases=320000, max_len=700),
             dict(procs=4, cases=2500000, max_len=700), replay_bin="c19n_rc"),
@@ -59,5 +114,9 @@ PROPS["C19"] = dict(
         run("views", "c19v_rc", "views", "rc", dict(procs=4, cases=32000), dict(procs=8, cases=160000)),
         run("scope-rules", "c19v_rc", "scope_rules", "rc", dict(procs=2, cases=26000), dict(procs=4, cases=120000)),
         run("identity", "c19v_rc", "identity", "rc", dict(procs=1, cases=65000), dict(procs=3, cases=300000)),
+        # fixed cases, only ever replayed (known/C19/*.json, proposed_fixes/C19-*.replay.json): no search budget
+        run("async-view-filter-witness", "c19v_rc", "async_view_filter_witness", "rc", None, None),
+        run("async-hist-bounds-witness", "c19v_rc", "async_hist_bounds_witness", "rc", None, None),
+        run("logger-dup-attr-key-witness", "c19v_rc", "logger_dup_attr_key_witness", "rc", None, None),
     ],
 )
